@@ -80,8 +80,9 @@ func c19Filler(n int, seed byte) []byte {
 
 // c19Build makes a message of the given kind whose non-padding content is governed by variant
 // ("data": response_definition.response_data of k bytes; "unk": an unknown length-delimited field
-// of k bytes) and extra (0..2: a few more bytes so that every size can be hit).
-func c19Build(kind c19Kind, variant string, k, extra int) proto.Message {
+// of k bytes, plus response headers when rich) and extra (0..2: a few more bytes so that every size
+// can be hit).
+func c19Build(kind c19Kind, variant string, k, extra int, rich bool) proto.Message {
 	msg := kind.make()
 	ref := msg.ProtoReflect()
 	fields := ref.Descriptor().Fields()
@@ -124,7 +125,7 @@ func c19Build(kind c19Kind, variant string, k, extra int) proto.Message {
 		unk = protowire.AppendVarint(unk, 300)
 	}
 	ref.SetUnknown(unk)
-	if variant == "unk" {
+	if variant == "unk" && rich {
 		setDef(func(def protoreflect.Message) {
 			hdrs := def.Descriptor().Fields().ByName("response_headers")
 			def.Mutable(hdrs).List().Append(protoreflect.ValueOfMessage(
@@ -140,7 +141,7 @@ func c19Fill(kind c19Kind, variant string, base int) proto.Message {
 		return kind.make()
 	}
 	for extra := 0; extra <= 2; extra++ {
-		s0 := proto.Size(c19Build(kind, variant, 0, extra))
+		s0 := proto.Size(c19Build(kind, variant, 0, extra, base >= 64))
 		if base < s0 {
 			continue
 		}
@@ -149,7 +150,7 @@ func c19Fill(kind c19Kind, variant string, base int) proto.Message {
 			lo = 0
 		}
 		for k := lo; k <= base-s0; k++ {
-			if m := c19Build(kind, variant, k, extra); proto.Size(m) == base {
+			if m := c19Build(kind, variant, k, extra, base >= 64); proto.Size(m) == base {
 				return m
 			}
 		}
